@@ -154,7 +154,7 @@ Kinds(c, w) ==
   LET s == Stage(c, w) IN
   IF MaySwallow(c) THEN {"error", "swallowed"}
   \* a pointer batch is resolved against the cached segment when this request names none it can attach
-  ELSE IF c.hist = "shmcached" /\ IsPtr(c) /\ s \in {"ptrattach", "ptrresolve", "rows"}
+  ELSE IF c.hist = "shmcached" /\ IsPtr(c) /\ s \notin {"nomethod", "reqver", "methodutf8", "location"}
        THEN {"error"} \cup KindsOf(Late(c, w), c)
   \* bytes of another shape may still happen to decode (to values the method accepts, or not): refusing at any later
   \* step and answering are both admissible -- what is not, is the process dying on them
@@ -177,6 +177,7 @@ Kinds(c, w) ==
 ConsumesInput(s) == s \in {"protover", "signature", "shmrefresh", "dispatch"}
 Script(c, w) ==
   IF c.m = "stream_hdr" THEN "hdr"
+  ELSE IF c.m = "stream_nohdr" /\ c.hist = "shmcached" /\ IsPtr(c) THEN "na"     \* resolved against the cache, or not
   ELSE IF c.m = "stream_nohdr" /\ ConsumesInput(Stage(c, w))
        THEN (IF c.extra = "trace" \/ (c.seg = "corrupt" /\ Resolved(c)) THEN "na" ELSE "blind")
   ELSE "one"
